@@ -52,6 +52,25 @@ def run(chk):
                 chk.violation("hostile-%s-%s" % (c, pr["id"]),
                               {"curve": c, "program": pr, "observed": {k: row[k] for k in ("pres", "vres", "decode")}, "mismatch": row["bad"],
                                "site": site_of(row)}, "; ".join(row["bad"]))
+    # the same grid through batch_verify (alone, and next to an honest member of another size): a value, never a panic
+    from checks.C07 import member, run_jobs
+    bjobs = []
+    for i, pr in enumerate(progs if not q else progs[::3]):
+        ms = [dict(pr, expect_p="", expect_v="")]
+        if i % 2:
+            ms = ms + [member(3, "good", "hb%d" % i, chk.seed + i)]
+        if i % 4 == 3:
+            ms = list(reversed(ms))
+        bjobs.append({"id": "hostile-batch-%d" % i, "members": ms, "seed": chk.seed + i, "kinds": ["hostile"] * len(ms), "expect": ""})
+    for c in vlib.REAL_CURVES:
+        rows, _ = run_jobs(chk, c, bjobs)
+        for row in rows:
+            chk.count_case([c, "batch", row["job"]["id"]])
+            chk.cov["replayed_behaviours"] += 1
+            panics = [b for b in row["bad"] if "panic" in b]
+            if panics or row["batch"].startswith("panic"):
+                chk.violation("hostile-batch-%s-%s" % (c, row["job"]["id"]), {"curve": c, "job": row["job"], "batch": row["batch"], "bad": row["bad"], "site": "batch-panic"},
+                              "batch_verify over a hostile member: %s %s" % (row["batch"], "; ".join(panics)))
     # (B3) the same grid on toy31723: TLC follows the run and requires that an accepted proof has the shape the statement calls for (IdealShape)
     vlib.toy_ideal(chk, "toy31723", progs if not q else progs[::2], "TraceIdealShape", "hostile-shape-toy", "host31723")
     # seeded random and guided byte mutations: decode and verify must return values; decode memory stays proportional to the input
@@ -93,7 +112,7 @@ def run(chk):
              "and curve (bit flips, truncation, token swaps, counts 0..2^64-1, identity/zero tokens, insertions, random strings) must decode or fail "
              "with a value within 64*len+64KiB of allocation. distinct = distinct grid points per curve" % (mx[0], mx[1], n),
         assumptions=["panics are caught with catch_unwind in a harness built with panic=unwind; the crate's release profile aborts instead",
-                     "batch_verify over hostile members is exercised by the C07 check"])
+                     "every grid point is also run through batch_verify (alone and next to an honest member, both orders)"])
 
 
 def replay(chk, path):
